@@ -232,7 +232,7 @@ func Gen(t *rapid.T) Case {
 		c.MediaType = rapid.SampledFrom(producerTypes).Draw(t, "mt")
 		c.Value = genValue(t, c.MediaType)
 	case 4, 5:
-		c.Kind = "reader"
+		c.Kind = rapid.SampledFrom([]string{"reader", "reader", "buffer", "bytesreader"}).Draw(t, "readerkind")
 	case 6:
 		c.Kind = "readcloser"
 	case 7, 8:
@@ -249,7 +249,7 @@ func Gen(t *rapid.T) Case {
 		c.Files = genFileFields(t, 1)
 		c.MediaType = formMediaType(t, true)
 	}
-	if c.Kind == "reader" || c.Kind == "readcloser" {
+	if c.Kind == "reader" || c.Kind == "readcloser" || c.Kind == "buffer" || c.Kind == "bytesreader" {
 		c.MediaType = rapid.SampledFrom([]string{"application/octet-stream", "application/octet-stream", "application/json", "text/plain", mtStampA, mtMultipart, mtURLEncoded}).Draw(t, "mt")
 		c.Body = &Blob{Data: genContent(t), Script: genScript(t)}
 	}
